@@ -1393,8 +1393,27 @@ def install_models(I):
         deref(a[0]).items.extend(src.values())
         return Agg([], "tuple")
     M["alloc::vec::Vec::extend_from_slice"] = vec_extend_from_slice
+    M["alloc::vec::Vec::is_empty"] = lambda I, a, f: len(deref(a[0]).items) == 0
+
+    def vec_drain(I, a, f):
+        v = deref(a[0])
+        items = list(v.items)
+        v.items = []
+        return ListIt(items)
+    M["alloc::vec::Vec::drain"] = vec_drain
+
+    def vec_last(I, a, f):
+        v = deref(a[0])
+        if not v.items:
+            return Agg([], "adt", "core::option::Option", "None")
+        return Agg([Ptr(v.items, len(v.items) - 1)], "adt", "core::option::Option", "Some")
+    M["alloc::vec::Vec::last"] = vec_last
+    M["core::slice::[T]::last"] = vec_last
     M["alloc::fmt::format"] = lambda I, a, f: Opaque("formatted-string")
     M["core::hint::must_use"] = lambda I, a, f: a[0]
+    M["winter_utils::uninit_vector"] = lambda I, a, f: Agg([None] * a[0], "vec") if isinstance(a[0], int) else (_ for _ in ()).throw(Unanalysable("uninit_vector of symbolic length"))
+    M["alloc::collections::btree::map::BTreeMap::new"] = lambda I, a, f: Agg([], "btreemap")
+    M["alloc::collections::btree::set::BTreeSet::new"] = lambda I, a, f: Agg([], "btreeset")
 
     # iterators
     def into_iter(I, a, f):
@@ -1558,6 +1577,16 @@ def simplify_term(op, a, b):
                 return x.args[0]
     if op == "-" and isz(b):
         return a
+    # a canonical field element is below the modulus
+    if isinstance(a, Term) and a.op == "as_int" and isinstance(b, int) and not isinstance(b, bool):
+        if op == ">=" and b >= P:
+            return False
+        if op == "<" and b >= P:
+            return True
+        if op == ">" and b >= P - 1:
+            return False
+        if op == "<=" and b >= P - 1:
+            return True
     return Term(op, a, b)
 
 
